@@ -84,7 +84,7 @@ class Proc:
 
 
 CHECK_RE = re.compile(r'^Check (\d+): (.+)\n\t - Status: (\w+)\n\t - Description: "(.*)"\n(?:\t - Location: (.*)\n)?', re.M)
-PLAY_RE = re.compile(r'/// Check for `(\w+)`: "(.*)"\n(?:///.*\n)*#\[test\]\nfn (\w+)\(\) \{\n\s*let concrete_vals: Vec<Vec<u8>> = vec!\[\n(.*?)\n\s*\];', re.S)
+PLAY_RE = re.compile(r'/// Check for `(\w+)`: "([^\n]*)"\n(?:[ \t]*\n|///[^\n]*\n)*#\[test\]\nfn (\w+)\(\) \{\n\s*let concrete_vals: Vec<Vec<u8>> = vec!\[\n(.*?)\n\s*\];', re.S)
 VEC_RE = re.compile(r'vec!\[([0-9, ]*)\]')
 
 
